@@ -176,7 +176,59 @@ def handler(p):
                 runs.append({'steps': steps_out, 'flush': [], 'ok': False, 'error': err, 'late': late})
             else:
                 runs.append({'steps': steps[:n], 'flush': steps[n], 'ok': True, 'error': None, 'late': late})
-        out.append({'abs': absf, 'runs': runs})
+        # histories on ONE iterator object over a re-iterable source: passes abandoned after k yields, then a complete pass
+        hist_out = []
+        for h in case.get('histories', []):
+            cfg = h['cfg']
+            n = len(specs)
+            cons = [0]
+
+            class Src:
+                def __iter__(self_):
+                    def gen():
+                        for i, pr in enumerate(pairs(specs)):
+                            cons[0] = i
+                            yield pr
+                        cons[0] = n
+                    return gen()
+
+            def snapshot(it):
+                if cfg['pooling'] == 0:
+                    groups = [[fid(f) for f in m.fragments] for m in it.molecules]
+                else:
+                    groups = [[hashes.get(k, -1), [[fid(f) for f in m.fragments] for m in ms]]
+                              for k, ms in it.molecules_per_cell.items()]
+                return [groups, int(it.check_ejection_iter)]
+            rec = {'states': [], 'final': None, 'error': None}
+            old = sys.stdout
+            sys.stdout = devnull
+            try:
+                it = MoleculeIterator(Src(), molecule_class=molclasses[case['cls']], fragment_class=cls,
+                                      check_eject_every=cfg['every'], pooling_method=cfg['pooling'],
+                                      perform_qflag=False, yield_invalid=cfg['yield_invalid'],
+                                      molecule_class_args={'cache_size': cfg['cache']},
+                                      fragment_class_args={'assignment_radius': cfg['radius'],
+                                                           'umi_hamming_distance': cfg['hd']})
+                for k in h['ks']:
+                    g = iter(it)
+                    try:
+                        for _ in range(k):
+                            next(g)
+                    except StopIteration:
+                        pass
+                    g.close()
+                    del g
+                    rec['states'].append(snapshot(it))
+                steps = [[] for _ in range(n + 1)]
+                for m in it:
+                    steps[cons[0]].append(enc_mol(m))
+                rec['final'] = {'steps': steps[:n], 'flush': steps[n], 'ok': True, 'error': None, 'late': []}
+            except BaseException as e:
+                rec['error'] = '%s: %s' % (type(e).__name__, e)
+            finally:
+                sys.stdout = old
+            hist_out.append(rec)
+        out.append({'abs': absf, 'runs': runs, 'histories': hist_out})
     return {'cases': out}
 
 
